@@ -37,6 +37,12 @@ TEMPLATES = {
     'g(v1,f(v0))': ('f', 'g', (('v', 1), ('f', 'f', (('v', 0),)))),
     '[v0,v1]': ('f', '.', (('v', 0), ('f', '.', (('v', 1), ('a', '[]'))))),
 }
+# lists whose tail is a variable: bound through alias chains to a list later (difference-list style)
+LIST_TEMPLATES = {
+    '[a|v0]': ('f', '.', (('a', 'a'), ('v', 0))),
+    '[a,b|v0]': ('f', '.', (('a', 'a'), ('f', '.', (('a', 'b'), ('v', 0))))),
+}
+BIND_LIST = [['v1', 'v2', 'nil', 'LP', 'int'], ['v1', 'v2', 'int', 'nil']]
 
 
 def realise(t, vs):
@@ -52,10 +58,10 @@ def realise(t, vs):
 BIND_DEEP = [['F1', 'F2'], ['F1', 'v1', 'int'], ['v1', 'v2', 'int']]     # first binding: a structure with variables at depth 2
 
 
-def spec_for(nb, deep=False):
+def spec_for(nb, deep=False, lists=False):
     spec = []
     k = 0
-    for levels in ([BIND_DEEP] if deep else [BIND]) + [BIND] * (nb - 1):
+    for levels in ([BIND_LIST] * nb if lists else ([BIND_DEEP] if deep else [BIND]) + [BIND] * (nb - 1)):
         for size in slot_alphabet_sizes(levels):
             spec.append(('k%d' % k, 'int', '0 <= k%d <= %d' % (k, size - 1)))
             k += 1
@@ -69,8 +75,9 @@ def spec_for(nb, deep=False):
 
 
 def make_body(template, nb, through_findall, info, deep=False):
-    spec, nc = spec_for(nb, deep)
-    rT = TEMPLATES[template]
+    lists = template in LIST_TEMPLATES
+    spec, nc = spec_for(nb, deep, lists)
+    rT = dict(TEMPLATES, **LIST_TEMPLATES)[template]
     ix = ch.index_of(spec)
 
     def body(vals):
@@ -80,7 +87,7 @@ def make_body(template, nb, through_findall, info, deep=False):
         T = realise(rT, vs)
         binds = []
         for j in range(nb):
-            t, r = dec.term(BIND_DEEP if (deep and j == 0) else BIND)
+            t, r = dec.term(BIND_LIST if lists else (BIND_DEEP if (deep and j == 0) else BIND))
             w = vals[ix['w%d' % j]]
             which = 0
             for i in range(NV):
@@ -99,7 +106,11 @@ def make_body(template, nb, through_findall, info, deep=False):
                         return ch.HOLDS_TRIVIAL
         except Cyclic:
             return ch.HOLDS_TRIVIAL
-        exp_py = ref_to_python(rT, s)
+        try:
+            exp_py = ref_to_python(rT, s)
+            py_ok = True
+        except TypeError:
+            exp_py, py_ok = None, False        # improper list: to_python is unspecified; get_value is still checked
         exp_term = resolve(rT, s, {})
         ground = not _has_var(full_resolve(rT, s))
         if through_findall:
@@ -155,7 +166,7 @@ def make_body(template, nb, through_findall, info, deep=False):
                 return ch.VIOLATED
             opened.append(it)
         try:
-            got_py = to_python(T)
+            got_py = to_python(T) if py_ok else None
             saved = get_value(T)
         except Exception as e:
             ch.note(info, 'to_python/get_value raised %s: %s', type(e).__name__, str(e)[:150])
@@ -182,12 +193,17 @@ def make_body(template, nb, through_findall, info, deep=False):
             except Cyclic:
                 break
             try:
-                now_py = to_python(T)
+                now_ok = True
+                try:
+                    now_exp_py = ref_to_python(rT, sk)
+                except TypeError:
+                    now_ok, now_exp_py = False, None
+                now_py = to_python(T) if now_ok else None
                 now = show(get_value(T), {})
             except Exception as e:
                 ch.note(info, 'to_python/get_value raised %s after backtracking', type(e).__name__)
                 return ch.VIOLATED
-            if now_py != ref_to_python(rT, sk) or now != resolve(rT, sk, {}):
+            if now_py != now_exp_py or now != resolve(rT, sk, {}):
                 ch.note(info, 'after undoing binding %d the term reads %r, reference %r', k, now, resolve(rT, sk, {}))
                 return ch.VIOLATED
         if ground:
@@ -195,7 +211,7 @@ def make_body(template, nb, through_findall, info, deep=False):
             if after != exp_term:
                 ch.note(info, 'saved answer changed after backtracking: %r, was %r', after, exp_term)
                 return ch.VIOLATED
-            if to_python(saved) != exp_py:
+            if py_ok and to_python(saved) != exp_py:
                 ch.note(info, 'to_python of the saved answer changed after backtracking')
                 return ch.VIOLATED
         return ch.HOLDS_NONTRIVIAL if (used >= 2 and ground) else ch.HOLDS_TRIVIAL
@@ -231,6 +247,8 @@ def units(tier, seed):
         add('a.T=v0.nb2.deep', 'v0', 2, False, {'w0': 0, 'nb': 2}, 300, 'C15.a', deep=True)
         add('a.T=g(v0,v1).nb2.deep', 'g(v0,v1)', 2, False, {'w0': 0, 'nb': 2}, 300, 'C15.a', deep=True)
         add('b.findall.T=f(v0).nb2.deep', 'f(v0)', 2, True, {'w0': 0, 'nb': 2}, 300, 'C15.b', deep=True)
+        for t in LIST_TEMPLATES:
+            add('a.T=%s.nb3.lists' % t, t, 3, False, {'w0': 0, 'nb': 3}, 300, 'C15.a')
     else:
         for t in names:
             add('a.T=%s.nb3.deep' % t, t, 3, False, {'w0': 0}, 1500, 'C15.a', deep=True)
